@@ -43,7 +43,7 @@ fn shape(r: &mut Rng) -> Shape {
     let k = r.range(1, 9);
     let depth = r.below(4);
     let hop = r.below(4);
-    let kind = r.below(24);
+    let kind = r.below(30);
     // how the loop is entered: directly, through `^f`, through `^~`, or below other frames
     let enter = move |loop_name: &str, arg: String| -> (String, String) {
         match hop {
@@ -172,6 +172,24 @@ fn shape(r: &mut Rng) -> Shape {
                 format!("pong = #[#^ -> 'int, #^ -> 'int, 'int, 'int] {{ =[me, other, n, acc], {{ | n =0 => acc | [&other, &me, [n, 1] __integer_subtract__, [acc, 1] __integer_add__] ^other }} }},\nping = #[#^ -> 'int, #^ -> 'int, 'int, 'int] {{ =[me, other, n, acc], {{ | n =0 => acc | [&other, &me, [n, 1] __integer_subtract__, [acc, {k}] __integer_add__] ^other }} }},\n[&ping, &pong, {n}, 0] ping")
             }),
         },
+        24..=29 => {
+            // the loop's state is a value of a UNION of tuple types and every iteration rebuilds it
+            // with a spread (one tuple construction per variant, selected at run time): for each
+            // variant the state can be at run time
+            let form = kind - 24;
+            let three = r.chance(1, 2);
+            let start = if three { ["A", "B", "C"][r.usize(3)] } else { ["A", "B"][r.usize(2)] };
+            let ty = if three { "A[x: 'int, y: 'int] | B[x: 'int, y: 'int] | C[x: 'int, y: 'int]" } else { "A[x: 'int, y: 'int] | B[x: 'int, y: 'int]" };
+            Shape {
+                kind: match form { 0 | 1 => "union-spread-state-update", 2 | 3 => "union-spread-state-ripple", 4 => "union-spread-into-unnamed", _ => "union-spread-two-sources" },
+                make: Box::new(move |n| match form {
+                    0 | 1 => format!("'t = {ty},\nloop = #[s: 't, n: 'int] {{ | =[s: s, n: 0] => s.x | =[s: s, n: n] => [s: s[..., x: [s.x, {k}] __integer_add__], n: [n, 1] __integer_subtract__] ^ }},\n[s: {start}[x: 0, y: 1], n: {n}] loop"),
+                    2 | 3 => format!("'t = {ty},\nloop = #['t, 'int] {{ | =[s, 0] => s.y | =[s, n] => [s ~[..., y: [s.y, {k}] __integer_add__], [n, 1] __integer_subtract__] ^ }},\n[{start}[x: 1, y: 0], {n}] loop"),
+                    4 => format!("'t = {ty},\nloop = #[s: 't, n: 'int] {{ | =[s: s, n: 0] => s.x | =[s: s, n: n] => {{ t = [...s, k: 1], [s: s, n: [n, t.k] __integer_subtract__] ^ }} }},\n[s: {start}[x: {k}, y: 0], n: {n}] loop"),
+                    _ => format!("'t = {ty},\nloop = #[s: 't, n: 'int] {{ | =[s: s, n: 0] => s.y | =[s: s, n: n] => {{ d = [y: [s.y, 1] __integer_add__], [s: s[..., ...d], n: [n, 1] __integer_subtract__] ^ }} }},\n[s: {start}[x: {k}, y: 0], n: {n}] loop"),
+                }),
+            }
+        }
         18..=22 => {
             // the standard library's iterator skip loops (`self ^~` inside nested blocks)
             let form = kind - 18;
@@ -201,7 +219,15 @@ fn shape(r: &mut Rng) -> Shape {
 fn server_shape(r: &mut Rng) -> (&'static str, Box<dyn Fn(u64) -> String>) {
     let k = r.range(1, 9);
     let pump = |n: u64| format!("pump = #'int {{ | =0 => 0 | =n => {{ n srv, [n, 1] __integer_subtract__ ^ }} }}, {n} pump");
-    match r.below(11) {
+    let bpump = |n: u64| format!("pump = #'int {{ | =0 => 0 | =n => {{ [0x0a0b, 0x0c] __binary_concat__ srv, [n, 1] __integer_subtract__ ^ }} }}, {n} pump");
+    match r.below(16) {
+        // the binary of every iteration comes from OUTSIDE the looping process: a received message,
+        // the argument of a spawn (Executor::inject_heap_data)
+        11 => ("server-receives-binary", Box::new(move |n| format!("srv = @#{{ !#'bin, ^ }}, {}", bpump(n)))),
+        12 => ("server-binary-state-replaced", Box::new(move |n| format!("srv = 0x0{k} @#'bin {{ =acc, !#'bin =m, m ^ }}, {}", bpump(n)))),
+        13 => ("server-receives-binary-and-int", Box::new(move |n| format!("srv = @#{{ ! [#'bin, #'int] {{ | ='bin => 1 | ='int => 2 }}, ^ }}, pump = #'int {{ | =0 => 0 | =n => {{ 0x010203040{k} srv, n srv, [n, 1] __integer_subtract__ ^ }} }}, {n} pump"))),
+        14 => ("loop-spawns-with-binary-argument", Box::new(move |n| format!("pump = #'int {{ | =0 => 0 | =n => {{ [0x0a0b, 0x0{k}] __binary_concat__ @#'bin {{ 1 }}, [n, 1] __integer_subtract__ ^ }} }}, {n} pump"))),
+        15 => ("server-receives-binary-binds", Box::new(move |n| format!("srv = @#{{ !#'bin =m, [m, 0x0{k}] __binary_concat__, ^ }}, {}", bpump(n)))),
         8 => ("server-nilary-captures", Box::new(move |n| format!("k = {k}, srv = @#{{ !#'int =m, [m, k] __integer_add__, ^ }}, {}", pump(n)))),
         9 => ("server-nilary-two-sources", Box::new(move |n| format!("srv = @#{{ ! [#'int, #'bin] {{ | ='int => 1 | ='bin => 2 }}, ^ }}, 0x0{k} srv, {}", pump(n)))),
         10 => ("server-nilary-spawns-child", Box::new(move |n| format!("srv = @#{{ !#'int =m, @#{{ {k} }}, ^ }}, {}", pump(n)))),
@@ -414,6 +440,24 @@ fn main() {
         .into();
     let b = qverif::run::builtins();
     let mut model = Model::spawn(opts.model.as_ref().expect("--model"));
+    // debugging aid: `c16 --probe FILE` (source with `@N@` for the iteration count): peaks at N = 40
+    // and N = 2000 on the sync path, or — with `--probe-server FILE` — under the simulator
+    if let Some(i) = opts.extra.iter().position(|x| x == "--probe" || x == "--probe-server") {
+        let text = std::fs::read_to_string(&opts.extra[i + 1]).expect("read source");
+        let server = opts.extra[i] == "--probe-server";
+        for n in [40u64, 2000] {
+            let src = text.replace("@N-1@", &(n - 1).to_string()).replace("@N@", &n.to_string());
+            if server {
+                println!("N={n}: {:?}", run_server(&src, &b, n));
+            } else {
+                match run_profile(&src, &b, n) {
+                    Ok(p) => println!("N={n}: frames={} locals={} stack={} slots={} in_use={} pending={} result={}", p.frames, p.locals, p.stack, p.slots, p.in_use, p.pending, p.result),
+                    Err(e) => println!("N={n}: {e}"),
+                }
+            }
+        }
+        return;
+    }
     let n_shapes = opts.tier.pick(150u64, 3000u64);
     let mut tailcalls_replayed = 0u64;
     let mut samples_checked = 0u64;
